@@ -913,3 +913,139 @@ def corpus_c21():
     out.append((setp([EAdt("Foo2", 2, [impl_atom("Marker", adt("Set", var(1)))], [var(0), adt("Set", var(1))])]),
                 {"missing": "bound of the applied type of a struct where-clause (second parameter)"}))
     return out
+
+
+# ---------------------------------------------------------------------------------------
+# parser for the generator's own text format (replays carry text only)
+# ---------------------------------------------------------------------------------------
+
+import re as _re
+
+
+def _split_top(s, sep):
+    """split at `sep` outside <>, (), {}"""
+    out, depth, cur, i = [], 0, "", 0
+    while i < len(s):
+        c = s[i]
+        if c in "<({":
+            depth += 1
+        elif c in ">)}":
+            depth -= 1
+        if depth == 0 and s.startswith(sep, i):
+            out.append(cur)
+            cur = ""
+            i += len(sep)
+            continue
+        cur += c
+        i += 1
+    if cur.strip() or out:
+        out.append(cur)
+    return [x.strip() for x in out if x.strip()]
+
+
+def _parse_ty(s, vmap):
+    s = s.strip()
+    m = _re.match(r"^([A-Za-z_][A-Za-z0-9_]*)\s*(?:<(.*)>)?$", s, _re.S)
+    if not m:
+        raise ValueError("type: %r" % s)
+    name, args = m.group(1), m.group(2)
+    if args is None and name in vmap:
+        return var(vmap[name])
+    return ("adt", name, tuple(_parse_ty(a, vmap) for a in _split_top(args, ",")) if args else ())
+
+
+def _parse_atom(s, vmap):
+    s = s.strip()
+    for pre, kinds in (("FromEnv(", ("fe", "fety")), ("WellFormed(", ("wf", "wfty"))):
+        if s.startswith(pre) and s.endswith(")"):
+            inner = s[len(pre):-1]
+            if _split_top(inner, ":")[0] != inner.strip():
+                a = _parse_atom(inner, vmap)
+                return (kinds[0],) + a[1:]
+            return (kinds[1], _parse_ty(inner, vmap))
+    subj, tr = _split_top(s, ":")[0], s[s.index(":", len(_split_top(s, ":")[0])) + 1:].strip()
+    m = _re.match(r"^([A-Za-z_][A-Za-z0-9_]*)\s*(?:<(.*)>)?$", tr, _re.S)
+    args = [_parse_ty(subj, vmap)] + ([_parse_ty(a, vmap) for a in _split_top(m.group(2), ",")] if m.group(2) else [])
+    return ("impl", m.group(1), tuple(args))
+
+
+def parse_program(text):
+    adts, traits, impls = [], [], []
+    for line in text.split("\n"):
+        line = line.strip()
+        if not line:
+            continue
+        up = line.startswith("#[upstream]")
+        if up:
+            line = line[len("#[upstream]"):].strip()
+        m = _re.match(r"^struct\s+(\w+)\s*(?:<([^>]*)>)?\s*(?:where\s+(.*?))?\s*\{(.*)\}\s*$", line)
+        if m:
+            params = [x.strip() for x in m.group(2).split(",")] if m.group(2) else []
+            vmap = {n: k for k, n in enumerate(params)}
+            wcs = [_parse_atom(w, vmap) for w in _split_top(m.group(3), ",")] if m.group(3) else []
+            fields = [_parse_ty(f.split(":", 1)[1], vmap) for f in _split_top(m.group(4), ",")]
+            it = EAdt(m.group(1), len(params), wcs, fields)
+            it.upstream = up
+            adts.append(it)
+            continue
+        m = _re.match(r"^((?:#\[\w+\]\s*)*)trait\s+(\w+)\s*(?:<([^>]*)>)?\s*(?:where\s+(.*?))?\s*\{\s*\}\s*$", line)
+        if m:
+            params = [x.strip() for x in m.group(3).split(",")] if m.group(3) else []
+            vmap = {"Self": 0}
+            vmap.update({n: k + 1 for k, n in enumerate(params)})
+            wcs = [_parse_atom(w, vmap) for w in _split_top(m.group(4), ",")] if m.group(4) else []
+            it = ETrait(m.group(2), len(params), wcs, _re.findall(r"#\[(\w+)\]", m.group(1)))
+            it.upstream = up
+            traits.append(it)
+            continue
+        m = _re.match(r"^impl\s*(?:<([^>]*)>)?\s*(!?)\s*(\w+)\s*(?:<(.*?)>)?\s+for\s+(.*?)\s*(?:where\s+(.*?))?\s*\{\s*\}\s*$", line)
+        if m:
+            params = [x.strip() for x in m.group(1).split(",")] if m.group(1) else []
+            vmap = {n: k for k, n in enumerate(params)}
+            args = [_parse_ty(m.group(5), vmap)] + ([_parse_ty(a, vmap) for a in _split_top(m.group(4), ",")] if m.group(4) else [])
+            wcs = [_parse_atom(w, vmap)[1:] for w in _split_top(m.group(6), ",")] if m.group(6) else []
+            it = pg.Impl(len(params), (m.group(3), tuple(args)), wcs, m.group(2) != "!")
+            it.upstream = up
+            impls.append(it)
+            continue
+        raise ValueError("item: %r" % line)
+    return EProg(adts, traits, impls, "parsed")
+
+
+def parse_goal(text, vmap=None):
+    s = text.strip()
+    vmap = dict(vmap or {})
+    m = _re.match(r"^(forall|exists)\s*<([^>]*)>\s*\{(.*)\}$", s, _re.S)
+    if m and _split_top(s, ",") == [s]:
+        names = [x.strip() for x in m.group(2).split(",")]
+        ids = []
+        for n in names:
+            vmap[n] = int(n[1:]) if _re.match(r"^X\d+$", n) else 1000 + len(vmap)
+            ids.append(vmap[n])
+        return (m.group(1), tuple(ids), parse_goal(m.group(3), vmap))
+    parts = _split_top(s, ",")
+    if len(parts) > 1:
+        return ("and", tuple(parse_goal(x, vmap) for x in parts))
+    if s.startswith("(") and s.endswith(")"):
+        return parse_goal(s[1:-1], vmap)
+    m = _re.match(r"^not\s*\{(.*)\}$", s, _re.S)
+    if m:
+        return ("not", parse_goal(m.group(1), vmap))
+    m = _re.match(r"^if\s*\((.*?)\)\s*\{(.*)\}$", s, _re.S)
+    if m:
+        # the hypothesis list ends at the first top-level ')' : re-scan with depth
+        depth, i = 0, s.index("(")
+        for j in range(i, len(s)):
+            if s[j] == "(":
+                depth += 1
+            elif s[j] == ")":
+                depth -= 1
+                if depth == 0:
+                    break
+        hyps_s, body_s = s[i + 1:j], s[j + 1:].strip()
+        hs = []
+        for h in _split_top(hyps_s, ";"):
+            hb = _split_top(h, ":-")
+            hs.append((_parse_atom(hb[0], vmap), tuple(_parse_atom(b, vmap) for b in _split_top(hb[1], ",")) if len(hb) > 1 else ()))
+        return ("if", tuple(hs), parse_goal(body_s[1:-1], vmap))
+    return ("atom", _parse_atom(s, vmap))
